@@ -18,6 +18,7 @@ structure SemOk (sem : Sem V) (cf : Cfg V) : Prop where
   cmp : ∀ op c neg, cmpNames.contains op = true → branchPair op = some (c, neg) → ∀ a b, sem.truthy (sem.alu op [a, b]) = sem.cond c [a, b]
   nez : ∀ v, sem.truthy v = sem.cond "nez" [v]
   select : ∀ c a b, sem.alu "select" [c, a, b] = if sem.truthy c = true then a else b
+  eqz : ∀ v, sem.truthy (sem.alu "seqz" [v]) = sem.cond "eqz" [v]
 
 /-- source state and core state agree: every bound global variable lives in its register (`fsF`: the flattening state at the end
     of the program), same own-stack memory, same effects so far -/
